@@ -29,6 +29,7 @@ pub async fn run(seed: u64, sched: Rc<Sched>, keep_log: bool) -> (CaseResult, Ve
     let victim_rx = pa.tx.clone(); // what the victim pulls = what the peer (pa) sends
     let frame_count = [1u64, 2, 10, 100][rng.gen_range(0..4)];
     let nflood = rng.gen_range(200..6000usize);
+    hist.note(format!("flood: read_frame_count={frame_count}, {nflood} control frames, peer->victim pipe {:?}", pa.tx.lock().unwrap().cfg));
     // The victim accepts capability 0 (2 streams) but its application never calls accept;
     // it also connects on capability 1, which the peer does not support.
     let (kill, kill_recv) = oneshot::channel::<()>();
